@@ -393,7 +393,117 @@ def run(F, rep, tier="quick", extra=None, only=None):
         rep.floor("bodies named %s" % m, per_method.get(m, 0), want)
     rep.note("per-method body counts: %s" % sorted(per_method.items()))
     check_shadowing(F, rep)
+    check_reference_components(F, rep)
     return {"level": "other", "explanation": EXPLANATION}
+
+
+# ------------------------------------------------------------------------------------------ REFCOMP
+# An indexed read of a struct-of-arrays colour (`get`, `get_mut`, iteration) yields a colour of *references*; the value is read with
+# `.copied()` / `.cloned()` / `.as_refs()` and written with `.set(value)` (macros/reference_component.rs, and the same four methods of the
+# hue newtypes).  Each is field-wise: component f of the result comes from component f of the receiver (and of `value` for `set`), every
+# non-phantom component is covered, and nothing else happens.  A swapped pair here is a wrong read / write at one index of one type.
+REF_OPS = {"copied": {"copied", "<deref>"}, "cloned": {"cloned", "clone"}, "as_refs": {"as_refs", "as_ref", "<deref>"}, "as_ref": {"<deref>"},
+           "set": {"set", "<assign>"}}
+
+
+def _proj_fields(node, roots):
+    """names of fields projected directly from one of the locals in `roots` inside node"""
+    out = []
+    for n, _p in facts.walk(node):
+        if n.get("k") == "field":
+            e = n.get("e") or {}
+            if e.get("k") == "path" and isinstance(e.get("res"), dict) and e["res"].get("k") == "local" and e["res"].get("n") in roots:
+                out.append((e["res"]["n"], n["n"]))
+    return out
+
+
+def _ops_in(F, node):
+    ops = []
+    for n, _p in facts.walk(node):
+        c = n.get("c")
+        if isinstance(c, dict) and "d" in c:
+            ops.append(F.S[c["d"]].split("::")[-1])
+        elif n.get("k") == "un" and n.get("op") == "*":
+            ops.append("<deref>")
+        elif n.get("k") not in ("field", "path", "ref", "un", "struct", "call", "mcall", "block", "semi", "assign"):
+            ops.append("<%s>" % n.get("k"))
+    return ops
+
+
+def check_reference_components(F, rep):
+    n = 0
+    for b in F.bodies:
+        in_macro = b["file"].endswith("macros/reference_component.rs")
+        in_hues = b["file"].endswith("palette/src/hues.rs") and b["name"] in ("copied", "cloned", "set", "as_ref") and b["_impl"] is not None \
+            and not b["_impl"].get("trait")
+        if not (in_macro or in_hues) or b["dk"] not in ("Fn", "AssocFn") or "::test" in b["path"]:
+            continue
+        m = b["name"]
+        key = "%s[%s]" % (m, b["_impl"]["self_s"] if b["_impl"] else b["path"])
+        if m not in REF_OPS:
+            rep.fail("REFCOMP", key, "method of a reference-component impl without a rule", F.loc(b))
+            continue
+        adt = self_adt_of(F, b)
+        comps = components(F, adt)
+        if not comps:
+            rep.fail("REFCOMP", key, "cannot list the components of %s" % adt, F.loc(b))
+            continue
+        n += 1
+        body = b["body"]
+        problems = []
+        pairs = []   # (target field, expression)
+        if m == "set":
+            if body.get("e") is not None:
+                problems.append("set has a tail expression")
+            for st in body.get("s", []):
+                e = st.get("e") if st.get("k") == "semi" else None
+                if e is None:
+                    problems.append("statement %s" % st.get("k"))
+                    continue
+                if e.get("k") == "assign":
+                    lhs, rhs = e["a"]
+                    lf = _proj_fields(lhs, {"self"})
+                    if len(lf) != 1 or not (lhs.get("k") == "un" and lhs.get("op") == "*"):
+                        problems.append("assignment target is not `*self.<f>`")
+                        continue
+                    pairs.append((lf[0][1], rhs))
+                elif e.get("k") == "mcall" and e.get("n") == "set":
+                    lf = _proj_fields(e["r"], {"self"})
+                    if len(lf) != 1 or len(e.get("a", [])) != 1:
+                        problems.append("nested set is not `self.<f>.set(value.<f>)`")
+                        continue
+                    pairs.append((lf[0][1], e["a"][0]))
+                else:
+                    problems.append("statement is neither `*self.f = value.f` nor `self.f.set(value.f)`")
+            src_root = "value"
+        else:
+            tail = body.get("e")
+            if body.get("s") or tail is None:
+                problems.append("body is not a single constructor expression")
+            elif tail.get("k") == "struct":
+                for fname, fe in tail["f"]:
+                    if fname in comps:
+                        pairs.append((fname, fe))
+            elif tail.get("k") == "call" and "ctor" in tail and len(tail.get("a", [])) == len(comps):
+                for fname, fe in zip(comps, tail["a"]):
+                    pairs.append((fname, fe))
+            else:
+                problems.append("result is not the struct literal / constructor of %s" % adt)
+            src_root = "self"
+        seen = [f for f, _e in pairs]
+        if sorted(seen) != sorted(comps):
+            problems.append("components written %s, components of %s are %s" % (sorted(seen), adt.split("::")[-1], sorted(comps)))
+        for f, e in pairs:
+            pf = _proj_fields(e, {"self", "value"})
+            if pf != [(src_root, f)]:
+                problems.append("%s <- %s" % (f, ["%s.%s" % x for x in pf]))
+            ops = [o for o in _ops_in(F, e) if o not in REF_OPS[m]]
+            if m in ("copied", "cloned", "as_refs", "as_ref") and ops:
+                problems.append("%s: unexpected operation(s) %s" % (f, sorted(set(ops))))
+            if m == "set" and [o for o in ops if o != "<deref>"]:
+                problems.append("%s: unexpected operation(s) %s" % (f, sorted(set(ops))))
+        rep.ob("REFCOMP", key, not problems, "; ".join(problems[:4]) if problems else "%s field by field over %s" % (m, ", ".join(comps)), F.loc(b), nontrivial=False)
+    rep.floor("reference-component methods", n, 342)
 
 
 SOA_METHODS = {"get", "get_mut", "set", "as_refs", "copied", "cloned", "with_capacity", "push", "pop", "clear", "drain"}
